@@ -28,6 +28,7 @@ pub fn stats_json(s: &Stats) -> J {
         ("unknown_after_interrupt", J::u(s.unknown_after_interrupt)),
         ("inconclusive", J::u(s.inconclusive)),
         ("aborted", J::u(s.aborted)),
+        ("bound_changes", J::u(s.bound_changes)),
         ("states", J::Arr(s.states.iter().map(|x| J::s(&format!("{x:x}"))).collect())),
         ("probes", J::Obj(s.probes.iter().map(|(k, v)| (k.clone(), J::u(*v))).collect())),
     ])
@@ -47,6 +48,7 @@ fn stats_merge_json(into: &mut Stats, j: &J, states: &mut HashSet<u64>) {
     into.unknown_after_interrupt += g("unknown_after_interrupt");
     into.inconclusive += g("inconclusive");
     into.aborted += g("aborted");
+    into.bound_changes += g("bound_changes");
     if states.len() < 4_000_000 {
         for s in j.at("states").as_arr() {
             states.insert(u64::from_str_radix(s.as_str(), 16).unwrap_or(0));
@@ -72,7 +74,7 @@ pub fn unit_count(prop: &str, tier: Tier) -> u64 {
         "C08" => (8_000, 500_000),
         "C09" => (40_000, 4_000_000),
         "C10" => (40_000, 4_000_000),
-        "C11" => (3_000, 150_000),
+        "C11" => (6_000, 150_000),
         "C12" => (60_000, 6_000_000),
         "C17" => (20_000, 1_500_000),
         "C18" => (40_000, 3_000_000),
@@ -529,7 +531,7 @@ pub fn check(prop: &str, tier: Tier) -> i32 {
         ("distinct_nontrivial", J::u(agg.nontrivial.len() as u64)),
         (
             "rule",
-            J::s("cases are generated from VERIF_SEED by the swarm generator of sim/src/gen.rs + props.rs (model, knobs, schedule, operations, faults); a case is non-trivial if its execution had at least one learned nogood (conflict) or at least two decisions; distinct = distinct trace id (FNV-1a over every decision, solution, verdict, poll count and learned nogood of the run)"),
+            J::s("cases are generated from VERIF_SEED by the swarm generator of sim/src/gen.rs + props.rs (model, knobs, schedule, operations, faults); a case is non-trivial if its execution had at least one learned nogood (conflict), at least two decisions, or (posting-only histories) at least one root bound tightened by a posting; distinct = distinct trace id (FNV-1a over every decision, solution, verdict, poll count and learned nogood of the run)"),
         ),
         ("samples", J::Arr(samples)),
         ("units", J::u(agg.units)),
